@@ -221,6 +221,10 @@ mod repr {
 
             // shortcut
             let bits = self.bit_len();
+            if bits == 0 {
+                // the root of zero is zero
+                return Repr::zero();
+            }
             if bits <= n {
                 // the result must be 1
                 return Repr::one();
